@@ -111,6 +111,14 @@ def run_real(c):
     except Exception as e:
         return "mk=" + canon_err(e)
     cut, start = c["cut"], c["start"]
+    # the SAME horizon object is first used with other cutoffs (conversions are cached per object:
+    # a result must depend on the cutoff passed now, not on one seen earlier)
+    for w in c.get("warm", []):
+        for f in (fh.to_absolute, fh.to_relative, fh.to_indexer, fh.to_in_sample, fh.to_out_of_sample):
+            try:
+                f(w)
+            except Exception:
+                pass
     parts = [
         "mk=" + _fh_str(fh),
         "rel=" + _try(lambda: fh.to_relative(cut), _fh_str),
@@ -228,7 +236,22 @@ def features(c, out):
 INT_FORMS = ["list", "array", "farray", "index", "int32"]
 
 
+def _add_warm(cases, rng):
+    """cutoffs the same object sees before the case's own cutoff: neighbours, small negatives (CPython
+    hashes -1 and -2 alike), repeats"""
+    for c in cases:
+        if c["cut"] is None or rng.random() < 0.35:
+            continue
+        pool = [c["cut"] - 1, c["cut"] + 1, -1, -2, 0, 1, c["cut"] + 2 ** 61 - 1 if rng.random() < 0.1 else 2]
+        c["warm"] = [int(v) for v in rng.sample(pool, rng.randrange(1, 4))]
+    return cases
+
+
 def gen_cases(tier, rng):
+    return _add_warm(_gen_cases(tier, rng), rng)
+
+
+def _gen_cases(tier, rng):
     cases = []
     universe = list(range(-4, 6))
     # exhaustive small scope, fixed order
